@@ -17,7 +17,7 @@ func init() {
 		Explanation: "the glue tables of main.go: (R19.1) file suffix -> parser and result printer; (R19.2) solver status -> answer line in each result printer, `o`/`v` lines only under status Sat; (R19.3) every `err != nil` edge reaches os.Exit with a non-zero constant (directly or by returning the error to a caller that does) without printing an answer line; " +
 			"(R19.4) nothing but scalars, strings and values with a String/Error method is printed on standard output; (R19.5) every result channel handed to a `go` producer is ranged over until it is closed on every path to a return.",
 		NotDecided: "truthfulness of what is printed (models, costs, counts); flag handling; the order of output lines.",
-		Rules:      []ruleFn{ruleR19_1, ruleR19_2, ruleR19_3, ruleR19_4, ruleR19_5, ruleR19_6, ruleR19_7, ruleR19_8},
+		Rules:      []ruleFn{ruleR19_1, ruleR19_2, ruleR19_3, ruleR19_4, ruleR19_5, ruleR19_6, ruleR19_7, ruleR19_8, ruleR19_9, ruleR19_10, ruleR19_11},
 	})
 }
 
@@ -1181,6 +1181,74 @@ func ruleR19_5(w *World, r *Report) {
 	keys := keyer{}
 	consumers := map[*ssa.Function]*ssa.Parameter{}
 	var consumerOrder []*ssa.Function
+	// drained: in fn, after instruction `from`, channel ch is received from until closed before every return:
+	// ranged over in place, or passed to a function that does
+	drained := func(fn *ssa.Function, from ssa.Instruction, ch ssa.Value) (problem string, notes []string, nret int) {
+		sites := drainSites(fn, func(v ssa.Value) bool { return v == ch })
+		var calls []ssa.CallInstruction
+		for _, ref := range *ch.Referrers() {
+			if ci, ok := ref.(*ssa.Call); ok && instrReachableFrom(from, ci) {
+				for _, a := range ci.Call.Args {
+					if a == ch {
+						calls = append(calls, ci)
+					}
+				}
+			}
+		}
+		okCalls := map[ssa.Instruction]bool{}
+		for _, ci := range calls {
+			callees := w.Callees[ci]
+			if len(callees) == 0 {
+				continue
+			}
+			all := true
+			for _, callee := range callees {
+				p := argParam(callee, ci.Common(), ch)
+				if p == nil || !w.InModule(callee) {
+					all = false
+					continue
+				}
+				if _, seen := consumers[callee]; !seen {
+					consumers[callee] = p
+					consumerOrder = append(consumerOrder, callee)
+				}
+				if ok, _ := drainsParam(w, callee, p); !ok {
+					all = false
+				}
+			}
+			if all {
+				okCalls[ci] = true
+				var ns []string
+				for _, c := range callees {
+					ns = append(ns, w.FuncName(c))
+				}
+				notes = append(notes, "passed to "+strings.Join(ns, " / "))
+			}
+		}
+		if len(sites) > 0 {
+			notes = append(notes, "ranged over in place")
+		}
+		allInstrs(fn, func(i2 ssa.Instruction) {
+			ret, ok := i2.(*ssa.Return)
+			if !ok || ret.Block() == fn.Recover || !instrReachableFrom(from, ret) {
+				return
+			}
+			nret++
+			if drainedAt(ret.Block(), sites) {
+				return
+			}
+			for ci := range okCalls {
+				if instrDominates(ci, ret) {
+					return
+				}
+			}
+			problem = "the return at " + w.InstrPos(ret) + " can be reached without the channel having been received from until it is closed"
+		})
+		if problem == "" && nret == 0 {
+			problem = "no return is reachable after the go statement"
+		}
+		return
+	}
 	for _, fn := range w.mainFns() {
 		allInstrs(fn, func(ins ssa.Instruction) {
 			g, ok := ins.(*ssa.Go)
@@ -1207,73 +1275,38 @@ func ruleR19_5(w *World, r *Report) {
 				}
 				key := keys.uniq(fmt.Sprintf("%s: %s handed to go %s", w.FuncName(fn), name, producer))
 				pos := w.InstrPos(g)
-				// consumers: range in this function, or calls receiving the channel
-				sites := drainSites(fn, func(v ssa.Value) bool { return v == ch })
-				var calls []ssa.CallInstruction
-				for _, ref := range *ch.Referrers() {
-					if ci, ok := ref.(*ssa.Call); ok && instrReachableFrom(g, ci) {
-						for _, a := range ci.Call.Args {
-							if a == ch {
-								calls = append(calls, ci)
+				// a function that starts the producer and returns the channel (`printFn(startOptimal(s.Optimal))`): the
+				// obligation is that of each of its callers, for the channel the call yields
+				returned := false
+				allInstrs(fn, func(i2 ssa.Instruction) {
+					if ret, ok := i2.(*ssa.Return); ok {
+						for _, rv := range ret.Results {
+							if rv == ch {
+								returned = true
 							}
 						}
 					}
-				}
-				problem := ""
-				var notes []string
-				okCalls := map[ssa.Instruction]bool{}
-				for _, ci := range calls {
-					callees := w.Callees[ci]
-					if len(callees) == 0 {
-						continue
-					}
-					all := true
-					for _, callee := range callees {
-						p := argParam(callee, ci.Common(), ch)
-						if p == nil || !w.InModule(callee) {
-							all = false
-							continue
-						}
-						if _, seen := consumers[callee]; !seen {
-							consumers[callee] = p
-							consumerOrder = append(consumerOrder, callee)
-						}
-						if ok, _ := drainsParam(w, callee, p); !ok {
-							all = false
-						}
-					}
-					if all {
-						okCalls[ci] = true
-						var ns []string
-						for _, c := range callees {
-							ns = append(ns, w.FuncName(c))
-						}
-						notes = append(notes, "passed to "+strings.Join(ns, " / "))
-					}
-				}
-				if len(sites) > 0 {
-					notes = append(notes, "ranged over in place")
-				}
-				nret := 0
-				allInstrs(fn, func(i2 ssa.Instruction) {
-					ret, ok := i2.(*ssa.Return)
-					if !ok || ret.Block() == fn.Recover || !instrReachableFrom(g, ret) {
-						return
-					}
-					nret++
-					if drainedAt(ret.Block(), sites) {
-						return
-					}
-					for ci := range okCalls {
-						if instrDominates(ci, ret) {
-							return
-						}
-					}
-					problem = "the return at " + w.InstrPos(ret) + " can be reached without the channel having been received from until it is closed"
 				})
-				if problem == "" && nret == 0 {
-					problem = "no return is reachable after the go statement"
+				if returned && fn.Signature.Results().Len() == 1 {
+					callers := 0
+					for _, cfn := range w.mainFns() {
+						for _, ci := range callsIn(cfn) {
+							c, ok := ci.(*ssa.Call)
+							if !ok || !w.staticCalleeIs(c, fn) {
+								continue
+							}
+							callers++
+							k2 := keys.uniq(fmt.Sprintf("%s: channel started by %s (go %s)", w.FuncName(cfn), w.FuncName(fn), producer))
+							problem, notes, nret := drained(cfn, c, c)
+							r.Check(problem == "", id, k2, w.InstrPos(c), fmt.Sprintf("%s; %d return(s) after the call, all behind the drain", strings.Join(notes, "; "), nret), problem)
+						}
+					}
+					if callers == 0 {
+						r.Unk(id, key, pos, "the channel is returned by "+w.FuncName(fn)+", which no function of package main calls directly")
+					}
+					continue
 				}
+				problem, notes, nret := drained(fn, g, ch)
 				r.Check(problem == "", id, key, pos, fmt.Sprintf("%s; %d return(s) after the go statement, all behind the drain", strings.Join(notes, "; "), nret), problem)
 			}
 		})
